@@ -1307,17 +1307,12 @@ theorem PoolInv.step (s0 s s' : Sys) (m : Msg) (rest subs : List Msg)
       | _ => simp [post] at hm
     | _ => simp [post] at hm
 
-/-- **The whole UpdateGlobalIndex transaction, the pools.** If no slash is unrecognised when the
-    transaction starts (booked stake ≤ delegated stake) and it succeeds, then at the end the bSei pool
-    is exactly what it was and the stSei pool has grown by exactly the amount by which the hub's
-    delegated stake has grown: what was re-bonded was delegated in full and booked to stSei alone. -/
-theorem C19_end_to_end_pools (s s' : Sys) (sender : Addr) (w : Wired19 s) (c : ChainOK s)
-    (hk : s.disp.keeper ≠ dispA) (hrate : s.disp.keeperRate ≤ D) (hden : s.disp.stDenom ≠ s.disp.bDenom)
-    (hns : s.hub.bBond + s.hub.sBond ≤ totalDelegated s)
+/-- the first step of the transaction: the hub's handler has run, its messages are queued, and
+    the queue invariant holds -/
+theorem ugi_start (s s' : Sys) (sender : Addr) (w : Wired19 s) (c : ChainOK s)
     (hx : Sys.run 400 s [.wasm sender hubA (.hub .updateGlobalIndex) []] = .ok s') :
-    s'.hub.bBond = s.hub.bBond ∧
-    s'.hub.sBond + totalDelegated s = s.hub.sBond + totalDelegated s' ∧
-    totalDelegated s ≤ totalDelegated s' := by
+    ∃ s1 subs, Sys.run 399 s1 (subs ++ []) = .ok s' ∧ PoolInv s s1 (subs ++ []) ∧ s1.reward = s.reward ∧
+      ∃ pre, subs = pre ++ [dMsg] ∧ ∀ x ∈ pre, Pre x = true := by
   simp only [Sys.run] at hx
   split at hx
   · cases hx
@@ -1394,10 +1389,309 @@ theorem C19_end_to_end_pools (s s' : Sys) (sender : Addr) (w : Wired19 s) (c : C
         · intro x hx''
           simp only [List.mem_append, List.mem_map, List.mem_cons, List.mem_nil_iff, or_false] at hx''
           rcases hx'' with ⟨dd, _, rfl⟩ | rfl <;> rfl
-      have fin := run_inv2 (PoolInv s) (fun a m r a' sb => PoolInv.step s a a' m r sb hk hrate hden hns) 399 s1 _ s' inv1 hx
-      have hpool := fin.pool
-      simp only [delSum, Nat.add_zero] at hpool
-      exact ⟨fin.bb, hpool, fin.mono⟩
+      refine ⟨s1, subs, hx, inv1, r, _, hsplit, ?_⟩
+      intro x hx''
+      simp only [List.mem_append, List.mem_map, List.mem_cons, List.mem_nil_iff, or_false] at hx''
+      rcases hx'' with ⟨dd, _, rfl⟩ | rfl <;> rfl
+
+/-- **The whole UpdateGlobalIndex transaction, the pools.** If no slash is unrecognised when the
+    transaction starts (booked stake ≤ delegated stake) and it succeeds, then at the end the bSei pool
+    is exactly what it was and the stSei pool has grown by exactly the amount by which the hub's
+    delegated stake has grown: what was re-bonded was delegated in full and booked to stSei alone. -/
+theorem C19_end_to_end_pools (s s' : Sys) (sender : Addr) (w : Wired19 s) (c : ChainOK s)
+    (hk : s.disp.keeper ≠ dispA) (hrate : s.disp.keeperRate ≤ D) (hden : s.disp.stDenom ≠ s.disp.bDenom)
+    (hns : s.hub.bBond + s.hub.sBond ≤ totalDelegated s)
+    (hx : Sys.run 400 s [.wasm sender hubA (.hub .updateGlobalIndex) []] = .ok s') :
+    s'.hub.bBond = s.hub.bBond ∧
+    s'.hub.sBond + totalDelegated s = s.hub.sBond + totalDelegated s' ∧
+    totalDelegated s ≤ totalDelegated s' := by
+  obtain ⟨s1, subs, hx, inv1, _, _⟩ := ugi_start s s' sender w c hx
+  have fin := run_inv2 (PoolInv s) (fun a m r a' sb => PoolInv.step s a a' m r sb hk hrate hden hns) 399 s1 _ s' inv1 hx
+  have hpool := fin.pool
+  simp only [delSum, Nat.add_zero] at hpool
+  exact ⟨fin.bb, hpool, fin.mono⟩
+
+/-! ### The bSei holders' side of the transaction
+
+  The reward contract is touched by exactly one message of the flow — its own index update, which
+  the dispatch emits last — so it runs when every transfer has arrived, as the very last message of
+  the transaction, and what it records is the contract's final bank balance. -/
+
+theorem handle_reward_same (s s' : Sys) (m : Msg) (subs : List Msg) (hx : s.handle m = .ok (s', subs))
+    (hne : ∀ sender rm f, m ≠ .wasm sender rewardA (.reward rm) f) : s'.reward = s.reward := by
+  cases handle_touch s s' m subs hx with
+  | none h _ _ _ => exact h.reward
+  | hub _ _ _ _ _ _ _ _ _ _ _ r _ _ => exact r
+  | bsei _ _ _ _ _ _ _ _ _ r _ _ => exact r
+  | stsei _ _ _ _ _ _ _ _ r _ _ => exact r
+  | reward _ _ _ _ heq _ _ _ _ _ _ _ _ _ => exact absurd heq (hne _ _ _)
+  | disp _ _ _ _ _ _ _ _ _ _ _ r _ => exact r
+  | reg _ _ _ _ _ _ _ _ _ _ _ _ r _ => exact r
+
+def uMsg : Msg := .wasm dispA rewardA (.reward .updateGlobalIndex) []
+
+def NoUgi (q : List Msg) : Prop := ∀ x ∈ q, ∀ sender rm f, x ≠ Msg.wasm sender rewardA (.reward rm) f
+
+theorem NoUgi.append {x y : List Msg} (h1 : NoUgi x) (h2 : NoUgi y) : NoUgi (x ++ y) := by
+  intro m hm
+  rcases List.mem_append.mp hm with h | h
+  · exact h1 m h
+  · exact h2 m h
+
+theorem pre_noUgi (l : List Msg) (h : ∀ x ∈ l, Pre x = true) : NoUgi l := by
+  intro x hx sender rm f he
+  have := h x hx
+  rw [he] at this; simp [Pre] at this
+
+theorem stake_noUgi (l : List Msg) (h : ∀ x ∈ l, isStake x = true) : NoUgi l := by
+  intro x hx sender rm f he
+  have := h x hx
+  rw [he] at this; simp [isStake] at this
+
+theorem coinMsgs_noUgi (c : DispSt) (x : Nat) (hh : c.hub = hubA) :
+    (∀ ms, coinMsgsB c dispA x = .ok ms → NoUgi ms) ∧ (∀ ms, coinMsgsSt c dispA x = .ok ms → NoUgi ms) := by
+  constructor
+  · intro ms hx; unfold coinMsgsB at hx; exc_split at hx
+    · intro m hm; cases hm
+    · intro m hm; simp at hm; rcases hm with rfl | rfl <;> (intro _ _ _ he; cases he)
+  · intro ms hx; unfold coinMsgsSt at hx; exc_split at hx
+    · intro m hm; cases hm
+    · intro m hm; simp at hm; subst hm; intro _ _ _ he; cases he
+    · intro m hm; simp at hm; rcases hm with rfl | rfl
+      · intro _ _ _ he; cases he
+      · intro _ _ _ he; rw [hh] at he; injection he with _ e2 _ _; cases e2
+
+/-- what the reward contract's index update leaves behind -/
+def Recorded (s0 s : Sys) : Prop :=
+  (s0.reward.totalBalance = 0 ∧ s.reward = s0.reward) ∨
+  (s0.reward.totalBalance ≠ 0 ∧
+    s.reward.prevRewardBalance = s.chain.bank rewardA s0.reward.rewardDenom ∧
+    s0.reward.prevRewardBalance ≤ s.chain.bank rewardA s0.reward.rewardDenom ∧
+    (s0.reward.Inv → s.reward.prevRewardBalance * D + sumOn s0.reward.holders s0.reward.owed <
+      sumOn s.reward.holders s.reward.owed + s0.reward.prevRewardBalance * D + s0.reward.totalBalance + 1))
+
+structure RewInv (s0 s : Sys) (q : List Msg) : Prop where
+  pl : PoolInv s0 s q
+  rw : (s.reward = s0.reward ∧ ((∃ pre, q = pre ++ [dMsg] ∧ ∀ x ∈ pre, Pre x = true) ∨
+      ∃ pre, q = pre ++ [uMsg] ∧ NoUgi pre)) ∨ (q = [] ∧ Recorded s0 s)
+
+theorem RewInv.step (s0 s s' : Sys) (m : Msg) (rest subs : List Msg)
+    (hk : s0.disp.keeper ≠ dispA) (hrate : s0.disp.keeperRate ≤ D) (hden : s0.disp.stDenom ≠ s0.disp.bDenom)
+    (hns : s0.hub.bBond + s0.hub.sBond ≤ totalDelegated s0)
+    (inv : RewInv s0 s (m :: rest)) (hx : s.handle m = .ok (s', subs)) : RewInv s0 s' (subs ++ rest) := by
+  have pl' := PoolInv.step s0 s s' m rest subs hk hrate hden hns inv.pl hx
+  refine ⟨pl', ?_⟩
+  have w := inv.pl.dl.base.wired
+  rcases inv.rw with ⟨hr, hu⟩ | ⟨hq, _⟩
+  swap
+  · cases hq
+  -- the queue's shape without its head
+  by_cases hm : ∀ sender rm f, m ≠ Msg.wasm sender rewardA (.reward rm) f
+  · -- some other message: the reward contract is untouched
+    have hr' : s'.reward = s0.reward := (handle_reward_same s s' m subs hx hm).trans hr
+    rcases hu with ⟨pre, hq, hpre⟩ | ⟨pre, hq, hp⟩
+    · cases pre with
+      | cons p pre' =>
+        simp only [List.cons_append] at hq
+        injection hq with e1 e2
+        subst e1
+        have hp : Pre m = true := hpre m (List.mem_cons_self ..)
+        left
+        refine ⟨hr', Or.inl ⟨subs ++ pre', by rw [e2, List.append_assoc], ?_⟩⟩
+        intro x hx'
+        rcases List.mem_append.mp hx' with h | h
+        · exact (pre_step s s' m subs w hp hx).1 x h
+        · exact hpre x (List.mem_cons_of_mem _ h)
+      | nil =>
+        -- the dispatch: the index update is the last thing it emits, and nothing else is queued
+        simp only [List.nil_append] at hq
+        injection hq with e1 e2
+        subst e1; subst e2
+        simp only [dMsg] at hx
+        cases handle_touch s s' _ subs hx with
+        | none _ hmm _ _ =>
+          rcases hmm with h0 | ⟨_, _, _, _, heq, ht⟩
+          · exact absurd rfl (h0 _ _ _ _)
+          · injection heq with _ e2 _ _
+            rcases ht with ht | ht <;> (rw [ht] at e2; cases e2)
+        | hub _ _ _ _ heq _ _ _ _ _ _ _ _ _ => injection heq with _ e2 _ _; cases e2
+        | bsei _ _ _ _ heq _ _ _ _ _ _ _ => injection heq with _ e2 _ _; cases e2
+        | stsei _ _ _ _ heq _ _ _ _ _ _ => injection heq with _ e2 _ _; cases e2
+        | reward _ _ _ _ heq _ _ _ _ _ _ _ _ _ => injection heq with _ e2 _ _; cases e2
+        | reg _ _ _ _ heq _ _ _ _ _ _ _ _ _ => injection heq with _ e2 _ _; cases e2
+        | disp s1 sender funds dm heq hmv' hch' hx' hh _ _ _ _ =>
+          injection heq with e1 _ e3 e4
+          injection e3 with e3
+          subst e1; subst e3; subst e4
+          have hms : ∃ m1 m2 b1 b2, coinMsgsB s.disp dispA b1 = .ok m1 ∧ coinMsgsSt s.disp dispA b2 = .ok m2 ∧
+              subs = m1 ++ m2 ++ [Msg.wasm dispA s.disp.rewardContract (.reward .updateGlobalIndex) []] := by
+            simp only [dispExec] at hx'; exc_norm at hx'
+            split at hx'
+            · cases hx'
+            · split at hx'
+              · cases hx'
+              · rename_i ms' hd
+                injection hx' with hx'; injection hx' with _ h2; subst h2
+                unfold dispatchMsgs at hd
+                split at hd
+                · cases hd
+                · rename_i m1 hm1
+                  split at hd
+                  · cases hd
+                  · rename_i m2 hm2
+                    injection hd with hd
+                    exact ⟨m1, m2, _, _, hm1, hm2, hd.symm⟩
+          obtain ⟨m1, m2, b1, b2, hm1, hm2, hsubs⟩ := hms
+          have cu := coinMsgs_noUgi s.disp
+          left
+          refine ⟨hr', Or.inr ⟨m1 ++ m2, ?_, ((cu b1 w.dispHub).1 m1 hm1).append ((cu b2 w.dispHub).2 m2 hm2)⟩⟩
+          rw [List.append_nil, hsubs, w.dispRw]; rfl
+    · -- past the dispatch: bank transfers, BondRewards, Delegate; the index update stays last
+      have hpost : ∀ x ∈ m :: rest, post x = true := by
+        rcases inv.pl.shape with ⟨pre2, hq2, _⟩ | ⟨h, _, _⟩
+        · exfalso
+          rw [hq] at hq2
+          have := (List.append_inj' hq2 rfl).2
+          simp [uMsg, dMsg] at this
+        · exact h
+      have hrestU : ∃ pre', rest = pre' ++ [uMsg] ∧ NoUgi pre' := by
+        cases pre with
+        | nil =>
+          simp only [List.nil_append] at hq
+          injection hq with e1 _
+          exact absurd e1 (hm _ _ _)
+        | cons p pre' =>
+          simp only [List.cons_append] at hq
+          injection hq with _ e2
+          exact ⟨pre', e2, fun x hx' => hp x (List.mem_cons_of_mem _ hx')⟩
+      obtain ⟨pre', hq', hp'⟩ := hrestU
+      have key : NoUgi subs → ((s'.reward = s0.reward ∧ ((∃ pre, subs ++ rest = pre ++ [dMsg] ∧ ∀ x ∈ pre, Pre x = true) ∨
+          ∃ pre, subs ++ rest = pre ++ [uMsg] ∧ NoUgi pre)) ∨ (subs ++ rest = [] ∧ Recorded s0 s')) := by
+        intro hs
+        exact Or.inl ⟨hr', Or.inr ⟨subs ++ pre', by rw [hq', List.append_assoc], hs.append hp'⟩⟩
+      have hpm : post m = true := hpost m (List.mem_cons_self ..)
+      have sent := handle_sentBy s s' m subs hx
+      cases m with
+      | bankSend src dst d amt =>
+        have hsubs : subs = [] := sent.2 (fun _ _ _ _ h => by cases h)
+        subst hsubs
+        exact key (fun _ h => by cases h)
+      | delegate who v amt =>
+        have hsubs : subs = [] := sent.2 (fun _ _ _ _ h => by cases h)
+        subst hsubs
+        exact key (fun _ h => by cases h)
+      | wasm a b cl f =>
+        cases cl with
+        | hub hm' =>
+          cases hm' with
+          | bondRewards =>
+            have hf : Flow (Msg.wasm a b (.hub .bondRewards) f) = true := inv.pl.dl.base.flow _ (List.mem_cons_self ..)
+            obtain ⟨_, _, _, _, _, _, hhub⟩ := flow_step s s' _ subs w hf hx
+            rcases hhub with ⟨_, hne⟩ | ⟨s2, sender2, funds2, heq2, _, _, hxx⟩
+            · have hab : a = dispA ∧ b = hubA := by simpa [post] using hpm
+              rw [hab.2] at hne
+              exact absurd rfl (hne _ _)
+            · injection heq2 with e1 e2 _ e4
+              subst e1; subst e4
+              simp only [hubExec] at hxx; split at hxx
+              · cases hxx
+              · obtain ⟨p, st, _, _, _, hd, _⟩ := HubSt.bondR_spec _ _ _ _ _ _ hxx
+                obtain ⟨stk, _, _⟩ := delegs_stake s.hub s2.hubEnv p subs rfl hd
+                exact key (stake_noUgi subs stk)
+          | _ => simp [post] at hpm
+        | reward rm => exact absurd rfl (hm a rm f |> fun h => by
+            have hab : b = rewardA := by
+              cases rm <;> simp [post] at hpm
+              exact hpm.1.2
+            rw [hab] at h; exact h)
+        | _ => simp [post] at hpm
+      | _ => simp [post] at hpm
+  · -- the reward contract's index update itself: it is the last message of the transaction
+    have hm' : ∃ sender rm f, m = Msg.wasm sender rewardA (.reward rm) f := by
+      apply Classical.byContradiction
+      intro hcon
+      exact hm (fun a b c he => hcon ⟨a, b, c, he⟩)
+    obtain ⟨sender, rm, f, hme⟩ := hm'
+    subst hme
+    have hrest : rest = [] ∧ Msg.wasm sender rewardA (.reward rm) f = uMsg := by
+      rcases hu with ⟨pre, hq, hpre⟩ | ⟨pre, hq, hp⟩
+      · exfalso
+        cases pre with
+        | nil =>
+          simp only [List.nil_append] at hq
+          injection hq with e1 _
+          simp [dMsg] at e1
+        | cons p pre' =>
+          simp only [List.cons_append] at hq
+          injection hq with e1 _
+          have := hpre p (List.mem_cons_self ..)
+          rw [← e1] at this; simp [Pre] at this
+      · cases pre with
+        | nil =>
+          simp only [List.nil_append] at hq
+          injection hq with e1 e2
+          exact ⟨e2, e1⟩
+        | cons p pre' =>
+          simp only [List.cons_append] at hq
+          injection hq with e1 _
+          exact absurd e1.symm (hp p (List.mem_cons_self ..) _ _ _)
+    obtain ⟨hrest, hmu⟩ := hrest
+    subst hrest
+    simp only [uMsg] at hmu
+    injection hmu with e1 _ e3 e4
+    injection e3 with e3
+    subst e1; subst e3; subst e4
+    right
+    cases handle_touch s s' _ subs hx with
+    | reward s1 sender' funds rm' heq h1 hmv hch hx' _ _ _ _ _ =>
+      injection heq with e1 _ e3 e4
+      injection e3 with e3
+      subst e1; subst e3; subst e4
+      simp only [Sys.moveFunds] at hmv
+      injection hmv with hmv; subst hmv
+      have hrec := C14_update_records_bank _ _ _ _ _ _ _ _ hx'
+      refine ⟨by rw [hrec.1]; rfl, ?_⟩
+      rcases hrec.2 with ⟨hz, he⟩ | ⟨hz, h1', h2'⟩
+      · exact Or.inl ⟨by rw [← hr]; exact hz, by rw [he]; exact hr⟩
+      · refine Or.inr ⟨by rw [← hr]; exact hz, by rw [h1', hch, hr], by rw [hch, ← hr]; exact h2', ?_⟩
+        intro hinv
+        have := C14_update_dust _ _ _ _ _ _ _ _ (by rw [hr]; exact hinv) hx'
+        rw [hr] at this
+        exact this
+    | none _ hmm _ _ =>
+      rcases hmm with h0 | ⟨_, _, _, _, heq, ht⟩
+      · exact absurd rfl (h0 _ _ _ _)
+      · injection heq with _ e2 _ _
+        rcases ht with ht | ht <;> (rw [ht] at e2; cases e2)
+    | hub _ _ _ _ heq _ _ _ _ _ _ _ _ _ => injection heq with _ e2 _ _; cases e2
+    | bsei _ _ _ _ heq _ _ _ _ _ _ _ => injection heq with _ e2 _ _; cases e2
+    | stsei _ _ _ _ heq _ _ _ _ _ _ => injection heq with _ e2 _ _; cases e2
+    | disp _ _ _ _ heq _ _ _ _ _ _ _ _ => injection heq with _ e2 _ _; cases e2
+    | reg _ _ _ _ heq _ _ _ _ _ _ _ _ _ => injection heq with _ e2 _ _; cases e2
+
+/-- **The whole UpdateGlobalIndex transaction, the bSei holders.** Under the premises of
+    `C19_end_to_end_pools`, at the end of a successful transaction: with no bSei held anywhere the
+    reward contract is exactly as it was; otherwise the balance it has recorded is its whole final
+    bank balance in the reward denom — everything delivered during the transaction has been
+    booked — and (for a reward state satisfying the C14 invariant) the holders' total claimable
+    reward has grown by everything newly recorded, up to less than `total_balance` atomics
+    (below one base unit inside the envelope).  Nothing but this one index update touched the reward
+    contract, and it ran as the last message of the transaction. -/
+theorem C19_end_to_end_holders (s s' : Sys) (sender : Addr) (w : Wired19 s) (c : ChainOK s)
+    (hk : s.disp.keeper ≠ dispA) (hrate : s.disp.keeperRate ≤ D) (hden : s.disp.stDenom ≠ s.disp.bDenom)
+    (hns : s.hub.bBond + s.hub.sBond ≤ totalDelegated s)
+    (hx : Sys.run 400 s [.wasm sender hubA (.hub .updateGlobalIndex) []] = .ok s') :
+    Recorded s s' := by
+  obtain ⟨s1, subs, hx, inv1, hr, hsh⟩ := ugi_start s s' sender w c hx
+  have inv2 : RewInv s s1 (subs ++ []) := by
+    obtain ⟨pre, hq, hp⟩ := hsh
+    exact ⟨inv1, Or.inl ⟨hr, Or.inl ⟨pre, by rw [List.append_nil]; exact hq, hp⟩⟩⟩
+  have fin := run_inv2 (RewInv s) (fun a m r a' sb => RewInv.step s a a' m r sb hk hrate hden hns) 399 s1 _ s' inv2 hx
+  rcases fin.rw with ⟨_, hu⟩ | ⟨_, h⟩
+  · -- the queue cannot drain without the index update having run
+    exfalso
+    rcases hu with ⟨pre, hq, _⟩ | ⟨pre, hq, _⟩ <;> cases pre <;> simp at hq
+  · exact h
 
 /-! Non-vacuity: a wired state with 1000 staked and 500 of pending rewards; the whole update
     succeeds (withdrawal, swap check, dispatch: 25 to the keeper, 475 re-bonded and delegated). -/
@@ -1430,5 +1724,26 @@ example : ChainOK rewardsPending := by
 example : rewardsPending.hub.bBond + rewardsPending.hub.sBond ≤ totalDelegated rewardsPending := by decide
 example : ∃ s', Sys.run 400 rewardsPending [.wasm 3 hubA (.hub .updateGlobalIndex) []] = .ok s' ∧
     s'.hub.sBond = 1475 ∧ totalDelegated s' = 1475 ∧ s'.chain.bank dispA 0 = 0 := ⟨_, rfl, by decide, by decide, by decide⟩
+
+/-- a state with bSei holders too: 600 booked to bSei (one holder with 600 mirrored), 400 to stSei,
+    500 pending; the premises of `C19_end_to_end_holders` hold, the reward state satisfies the C14
+    invariant and is not the trivial no-holder case, and after the update the reward contract has
+    recorded its whole bank balance -/
+def rewardsPending2 : Sys :=
+  { rewardsPending with
+    hub := { rewardsPending.hub with bBond := 600, sBond := 400 },
+    reward := { rewardsPending.reward with totalBalance := 600, hBal := upd (fun _ => 0) 5 600, holders := [5] } }
+
+example : Wired19 rewardsPending2 := ⟨rfl, rfl, rfl, by decide, by decide⟩
+example : rewardsPending2.reward.Inv := by
+  have hg : rewardsPending2.reward = { (rewardInit 1 hubA 1 swapA [0, 1]) with
+      totalBalance := 600, hBal := upd (fun _ => 0) 5 600, holders := [5] } := rfl
+  rw [hg]
+  refine ⟨?_, ?_, ?_, ?_, ?_⟩ <;> simp [rewardInit, RewardSt.owed, upd, sumOn]
+example : rewardsPending2.reward.totalBalance ≠ 0 ∧
+    rewardsPending2.hub.bBond + rewardsPending2.hub.sBond ≤ totalDelegated rewardsPending2 := by decide
+example : ∃ s', Sys.run 400 rewardsPending2 [.wasm 3 hubA (.hub .updateGlobalIndex) []] = .ok s' ∧
+    s'.reward.prevRewardBalance = s'.chain.bank rewardA 1 ∧ 0 < s'.reward.prevRewardBalance :=
+  ⟨_, rfl, by decide, by decide⟩
 
 end Krp
